@@ -187,10 +187,10 @@ CHECKS = {
  'C13': dict(
    text='Machine-checked proof (Coq) over a model of the compiled-filter cache (lru_cache, the itertools.count name counter, exec defining a module global, __del__ removing it, get() reading it back): for ANY capacity and ANY sequential history '
         '(first filter, thousandth, repeated, any order, across evictions) every call hands back the code of its own filter; cached wrappers keep pairwise distinct names and their module global stays their own code (still-cached filters keep working); '
-        'after any such history, any number of threads under ANY schedule (interleaving the steps ask-cache / take-name / exec-definition / store / get) each work on and end with their own filter\'s code. '
+        'after any such history, any number of threads under ANY schedule (interleaving the steps ask-cache / take-name / exec-definition / store / get-and-release), WITH eviction while they run (a dropped wrapper is finalised as soon as no thread holds it; capacity 0 and 1 included), each work on and end with their own filter\'s code. '
         'Tied by the extracted cache model (capacity regenerated from FILTER_CACHE_LRU_SIZE; grid_filter\'s functions pinned) vs the implementation on histories around the capacity: results and the exact set of _gen_hsfilter_N globals left. '
         'The search runs histories of up to ~1500 distinct filters and enumerates interleavings of 2-3 threads at source-line granularity inside hszinc with a deterministic turn-passing scheduler (threading.settrace).',
-   note='PARTIAL: the concurrent theorem assumes no eviction while the threads run (CPython finalises an evicted wrapper only when no thread holds it; not modelled) and steps at the granularity named above; real preemption is per bytecode; '
+   note='PARTIAL: the concurrent theorems step at the granularity named above (lru_cache operations, next() on the counter, exec of the definition and the global read are atomic steps); real preemption is per bytecode; '
         'free-threaded builds are out of scope; __del__ is modelled as immediate (the harness runs the cyclic collector before comparing the globals). What the handed-back code computes is C11. '
         'quick: all one-preemption schedules + 260 two-preemption + 60 three-thread schedules; thorough: all two-preemption schedules (~120^2). Print Assumptions: closed under the global context.',
    technique='Coq invariant proofs (sequential LRU state machine with eviction; small-step interleaving over a thread list, permutation-based freshness) + cache-state correspondence + deterministic schedule enumeration',
